@@ -1,16 +1,364 @@
-import FiberModel.C16.Spec
+import FiberModel.C16.Refine
 /-
-C16 — property theorems (work in progress: see props/C16.json "partial").
+C16 — property theorems.
+
+"A request with an unsafe method reaches the protected handler only if it presents, through the
+configured extractor and matching the CSRF cookie, a token that the server issued and that is
+unexpired, not consumed (single-use) and not deleted, and — when an Origin header (or on https a
+Referer) is present — comes from the same origin or a configured trusted origin. Safe methods always
+pass and leave a valid token cookie, and if the token store fails the request is rejected."
+
+Quantification: every configuration the constructor accepts (any list of trusted-origin strings, any
+extractor, single-use or not, any idle timeout > 0, each of the three back-ends), every key
+generator and session-id generator (see `GenOK`), every history of requests and clock advances of any
+length, every request (all header / cookie / token values, every pattern of injected storage
+faults). Helper lemmas live in ListLemmas / OriginLemmas / Sim* / SpecLemmas / Refine.
 -/
+set_option linter.unusedVariables false
+
 namespace C16
 open B
 
-/-- Safe methods always reach the protected handler, whatever the state, headers and faults. -/
-theorem safe_methods_pass (cfg : Cfg) (gen sgen : Nat → Bytes) (st : St) (q : Req)
-    (h : isSafe q.method = true) : (handle cfg gen sgen st q).2.pass = true := by
-  unfold handle decide'
-  simp only [h, if_true]
-  by_cases hck : q.ck = [] <;> simp [hck, finish] <;> repeat' split
-  all_goals simp_all
+/-- What is assumed of the two generators: keys and session ids are never empty, and (needed for the
+    session back-ends only, where one key must not sit in two sessions) keys are never repeated. -/
+structure GenOK (cfg : Cfg) (gen sgen : Nat → Bytes) : Prop where
+  key_nonempty : ∀ n, gen n ≠ []
+  key_fresh : cfg.backend ≠ .storage → Function.Injective gen
+  sid_nonempty : ∀ n, sgen n ≠ []
+
+/-- the specification's view of a configuration built from the trusted-origin strings `raw` -/
+abbrev specOf (cfg : Cfg) (raw : List Bytes) : SpecCfg :=
+  specConfig cfg.backend cfg.ext cfg.single cfg.idle raw
+
+/-! ## The main theorem -/
+
+/-- **Model ⊑ specification, over all histories.** Run any history on the model from the empty state;
+    feed the observations (reached / status / cookies / generator calls / faults / store probe) to the
+    specification oracle: no clause is ever violated. The clauses are exactly those the oracle
+    evaluates on the real middleware's observations on every check run. -/
+theorem history_meets_spec (raw : List Bytes) (cfg : Cfg)
+    (hbuild : buildLoop raw [] [] = some (cfg.origins, cfg.subs)) (hidle : 0 < cfg.idle)
+    (gen sgen : Nat → Bytes) (hgen : GenOK cfg gen sgen) (ops : List Op) (hwf : OpsWf ops) :
+    specRun (specOf cfg raw) specInit ops (runObs cfg gen sgen {} ops) = none :=
+  run_refines raw cfg hbuild gen sgen hgen.key_nonempty hgen.key_fresh hgen.sid_nonempty hidle ops hwf
+    {} specInit (inv_init cfg gen)
+
+/-! ## The clauses, read off for one more request after an arbitrary history -/
+
+/-- the state of the model after a history -/
+abbrev after (cfg : Cfg) (gen sgen : Nat → Bytes) (ops : List Op) : St := (run cfg gen sgen {} ops).1
+
+/-- After any history the specification's bookkeeping exists (no clause was violated on the way), is
+    tied to the model state by the invariant, and lists only issued tokens as live. -/
+theorem history_state (raw : List Bytes) (cfg : Cfg)
+    (hbuild : buildLoop raw [] [] = some (cfg.origins, cfg.subs)) (hidle : 0 < cfg.idle)
+    (gen sgen : Nat → Bytes) (hgen : GenOK cfg gen sgen) (ops : List Op) (hwf : OpsWf ops) :
+    ∃ s, specEnd (specOf cfg raw) specInit ops (runObs cfg gen sgen {} ops) = some s ∧
+      Inv cfg gen (after cfg gen sgen ops) s ∧ LiveIssued s :=
+  run_refines_end raw cfg hbuild gen sgen hgen.key_nonempty hgen.key_fresh hgen.sid_nonempty hidle ops hwf
+    {} specInit (inv_init cfg gen) liveIssued_init
+
+/-- **An unsafe request reaches the handler only if …** After any history, if a request with an
+    unsafe method reaches the protected handler then, `s` being the specification state the history
+    led to: some value `t` presented through the configured extractor is non-empty, equals the CSRF
+    cookie, is live in `s` (issued or extended at most an idle period ago; not consumed by a
+    single-use acceptance; not deleted) and was issued by the server's key generator before this
+    request; the origin clause holds; and no storage call failed before the handler was entered. -/
+theorem unsafe_pass_requires_live_token (raw : List Bytes) (cfg : Cfg)
+    (hbuild : buildLoop raw [] [] = some (cfg.origins, cfg.subs)) (hidle : 0 < cfg.idle)
+    (gen sgen : Nat → Bytes) (hgen : GenOK cfg gen sgen) (ops : List Op) (hwf : OpsWf ops)
+    (q : Req) (hwo : q.ourl.wf) (hwr : q.rurl.wf) (hunsafe : isSafe q.method = false)
+    (hpass : (handle cfg gen sgen (after cfg gen sgen ops) q).2.pass = true) :
+    ∃ s, specEnd (specOf cfg raw) specInit ops (runObs cfg gen sgen {} ops) = some s ∧
+      (∃ t, t ∈ presented cfg.ext q ∧ t ≠ [] ∧ t = q.ck ∧ s.liveAt t = true ∧
+        (∃ i, i < (after cfg gen sgen ops).ntok ∧ gen i = t) ∧
+        (cfg.backend ≠ .storage → heldBy s t q.sc = true)) ∧
+      originClause (specOf cfg raw) q = true ∧
+      (handle cfg gen sgen (after cfg gen sgen ops) q).2.early = false := by
+  obtain ⟨s, hend, hinv, hli⟩ := history_state raw cfg hbuild hidle gen sgen hgen ops hwf
+  obtain ⟨s', hs, _⟩ := handle_refines raw cfg hbuild gen sgen hgen.key_nonempty hgen.key_fresh
+    hgen.sid_nonempty hidle _ s q hwo hwr hinv
+  obtain ⟨he, ho, t, h1, h2, h3, h4, _, h6⟩ := specReq_ok_unsafe_pass _ s q _ s' hs hunsafe hpass
+  refine ⟨s, hend, ⟨t, h1, h2, h3, h4, ?_, fun hb => h6 (by simp [specConfig, hb])⟩, ho, he⟩
+  -- live in `s`, hence issued before this request
+  unfold SpecSt.liveAt at h4
+  split at h4
+  · rename_i l hl
+    exact (hinv.issued t).mp (hli t l hl)
+  · cases h4
+
+/-- **Expired, consumed, deleted or forged tokens are refused**: an unsafe request whose cookie token
+    is not live in the specification's bookkeeping does not reach the handler. -/
+theorem dead_token_rejected (raw : List Bytes) (cfg : Cfg)
+    (hbuild : buildLoop raw [] [] = some (cfg.origins, cfg.subs)) (hidle : 0 < cfg.idle)
+    (gen sgen : Nat → Bytes) (hgen : GenOK cfg gen sgen) (ops : List Op) (hwf : OpsWf ops)
+    (q : Req) (hwo : q.ourl.wf) (hwr : q.rurl.wf) (hunsafe : isSafe q.method = false)
+    (s : SpecSt) (hs : specEnd (specOf cfg raw) specInit ops (runObs cfg gen sgen {} ops) = some s)
+    (hdead : s.liveAt q.ck = false) :
+    (handle cfg gen sgen (after cfg gen sgen ops) q).2.pass = false := by
+  cases hp : (handle cfg gen sgen (after cfg gen sgen ops) q).2.pass
+  · rfl
+  · obtain ⟨s', hs', ⟨t, _, _, h3, h4, _, _⟩, _⟩ :=
+      unsafe_pass_requires_live_token raw cfg hbuild hidle gen sgen hgen ops hwf q hwo hwr hunsafe hp
+    rw [hs] at hs'
+    cases hs'
+    rw [h3, hdead] at h4
+    cases h4
+
+/-- **If the token store fails the request is rejected**: an unsafe request during which a storage
+    call failed before the handler could be entered does not reach it. -/
+theorem store_failure_rejects (raw : List Bytes) (cfg : Cfg)
+    (hbuild : buildLoop raw [] [] = some (cfg.origins, cfg.subs)) (hidle : 0 < cfg.idle)
+    (gen sgen : Nat → Bytes) (hgen : GenOK cfg gen sgen) (ops : List Op) (hwf : OpsWf ops)
+    (q : Req) (hwo : q.ourl.wf) (hwr : q.rurl.wf) (hunsafe : isSafe q.method = false)
+    (hfail : (handle cfg gen sgen (after cfg gen sgen ops) q).2.early = true) :
+    (handle cfg gen sgen (after cfg gen sgen ops) q).2.pass = false := by
+  cases hp : (handle cfg gen sgen (after cfg gen sgen ops) q).2.pass
+  · rfl
+  · obtain ⟨_, _, _, _, he⟩ :=
+      unsafe_pass_requires_live_token raw cfg hbuild hidle gen sgen hgen ops hwf q hwo hwr hunsafe hp
+    rw [hfail] at he
+    cases he
+
+/-- **Tokens of different clients never mix** (session back-ends): an unsafe request presenting a
+    token that the specification knows as handed to another session than the one named by the
+    request's session cookie does not reach the handler. -/
+theorem foreign_session_token_rejected (raw : List Bytes) (cfg : Cfg)
+    (hbuild : buildLoop raw [] [] = some (cfg.origins, cfg.subs)) (hidle : 0 < cfg.idle)
+    (gen sgen : Nat → Bytes) (hgen : GenOK cfg gen sgen) (ops : List Op) (hwf : OpsWf ops)
+    (q : Req) (hwo : q.ourl.wf) (hwr : q.rurl.wf) (hunsafe : isSafe q.method = false)
+    (hb : cfg.backend ≠ .storage)
+    (s : SpecSt) (hs : specEnd (specOf cfg raw) specInit ops (runObs cfg gen sgen {} ops) = some s)
+    (hother : heldBy s q.ck q.sc = false) :
+    (handle cfg gen sgen (after cfg gen sgen ops) q).2.pass = false := by
+  cases hp : (handle cfg gen sgen (after cfg gen sgen ops) q).2.pass
+  · rfl
+  · obtain ⟨s', hs', ⟨t, _, _, h3, _, _, h6⟩, _⟩ :=
+      unsafe_pass_requires_live_token raw cfg hbuild hidle gen sgen hgen ops hwf q hwo hwr hunsafe hp
+    rw [hs] at hs'
+    cases hs'
+    have := h6 hb
+    rw [h3, hother] at this
+    cases this
+
+/-- **Requests from a foreign origin are refused**: an unsafe request whose Origin (or, on https
+    without Origin, Referer) is present but neither the request's own origin nor admitted by a
+    configured entry does not reach the handler, whatever token it carries. -/
+theorem foreign_origin_rejected (raw : List Bytes) (cfg : Cfg)
+    (hbuild : buildLoop raw [] [] = some (cfg.origins, cfg.subs)) (hidle : 0 < cfg.idle)
+    (gen sgen : Nat → Bytes) (hgen : GenOK cfg gen sgen) (ops : List Op) (hwf : OpsWf ops)
+    (q : Req) (hwo : q.ourl.wf) (hwr : q.rurl.wf) (hunsafe : isSafe q.method = false)
+    (hforeign : originClause (specOf cfg raw) q = false) :
+    (handle cfg gen sgen (after cfg gen sgen ops) q).2.pass = false := by
+  cases hp : (handle cfg gen sgen (after cfg gen sgen ops) q).2.pass
+  · rfl
+  · obtain ⟨_, _, _, ho, _⟩ :=
+      unsafe_pass_requires_live_token raw cfg hbuild hidle gen sgen hgen ops hwf q hwo hwr hunsafe hp
+    rw [hforeign] at ho
+    cases ho
+
+/-- **Safe methods always pass and leave a valid token cookie.** After any history a safe request
+    reaches the handler; unless the handler itself calls `DeleteToken`, the reply sets the CSRF cookie
+    to a non-empty token that the server issued — the presented cookie if that was live, otherwise a
+    freshly generated one — and, no storage fault provided, the store holds that token for a full
+    idle period from now. -/
+theorem safe_methods_pass_and_leave_cookie (raw : List Bytes) (cfg : Cfg)
+    (hbuild : buildLoop raw [] [] = some (cfg.origins, cfg.subs)) (hidle : 0 < cfg.idle)
+    (gen sgen : Nat → Bytes) (hgen : GenOK cfg gen sgen) (ops : List Op) (hwf : OpsWf ops)
+    (q : Req) (hwo : q.ourl.wf) (hwr : q.rurl.wf) (hsafe : isSafe q.method = true) :
+    let st' := (handle cfg gen sgen (after cfg gen sgen ops) q).1
+    let r := (handle cfg gen sgen (after cfg gen sgen ops) q).2
+    r.pass = true ∧
+    (q.del = false → ∃ s t, specEnd (specOf cfg raw) specInit ops (runObs cfg gen sgen {} ops) = some s ∧
+      r.ck = some t ∧ t ≠ [] ∧ (∃ i, i < st'.ntok ∧ gen i = t) ∧
+      ((t = q.ck ∧ s.liveAt t = true) ∨ t ∈ r.gens) ∧
+      ((r.fg || r.fs || r.fd) = false →
+        probeHas (obsOf cfg st' r) t ((after cfg gen sgen ops).now + cfg.idle) = true)) := by
+  intro st' r
+  obtain ⟨s, hend, hinv, hli⟩ := history_state raw cfg hbuild hidle gen sgen hgen ops hwf
+  obtain ⟨s', hs, hinv'⟩ := handle_refines raw cfg hbuild gen sgen hgen.key_nonempty hgen.key_fresh
+    hgen.sid_nonempty hidle _ s q hwo hwr hinv
+  obtain ⟨hp, hrest⟩ := specReq_ok_safe _ s q _ s' hs hsafe
+  refine ⟨hp, fun hnd => ?_⟩
+  obtain ⟨t, h1, h2, h3, h4, h5⟩ := hrest hnd
+  refine ⟨s, t, hend, h1, h2, ?_, h4, fun hf => ?_⟩
+  · -- issued: the successor specification state is `s` with the generated keys added
+    have hiss := hinv'.issued
+    have hs'iss : s'.issued = s.issued ++ r.gens := (specReq_issued _ s q _ s' hs).1
+    rw [hs'iss] at hiss
+    exact (hiss t).mp h3
+  · have := h5 hf
+    rw [hinv.now] at this
+    exact this
+
+/-- **Only issued tokens are ever stored**: after any history every token the store probe finds is a
+    key the generator handed out. -/
+theorem token_was_issued (raw : List Bytes) (cfg : Cfg)
+    (hbuild : buildLoop raw [] [] = some (cfg.origins, cfg.subs)) (hidle : 0 < cfg.idle)
+    (gen sgen : Nat → Bytes) (hgen : GenOK cfg gen sgen) (ops : List Op) (hwf : OpsWf ops)
+    (it : LiveItem) (hit : it ∈ probe cfg (after cfg gen sgen ops)) (t : Bytes) (ht : it.tok = some t) :
+    ∃ i, i < (after cfg gen sgen ops).ntok ∧ gen i = t := by
+  obtain ⟨s, _, hinv, _⟩ := history_state raw cfg hbuild hidle gen sgen hgen ops hwf
+  have htok := hinv.tokens
+  unfold probe at hit
+  have key : cfg.backend = .storage ∨ cfg.backend = .sessStore ∨ cfg.backend = .sessMw := by
+    cases cfg.backend <;> simp
+  rcases key with hb | hb | hb <;> simp only [hb] at htok hit
+  · obtain ⟨e, he, rfl⟩ := List.mem_map.mp hit
+    simp only [Option.some.injEq] at ht
+    have hm := (List.mem_filter.mp he).1
+    obtain ⟨k, d⟩ := e
+    have := (htok.1 k d (mem_lookup _ k d htok.2 hm)).1
+    rw [← ht]; exact this
+  all_goals
+    obtain ⟨e, he, rfl⟩ := List.mem_map.mp hit
+    obtain ⟨id, slot⟩ := e
+    cases slot with
+    | none => simp at ht
+    | some tk =>
+      obtain ⟨k, d⟩ := tk
+      simp only [Option.some.injEq] at ht
+      have := (htok.1 id k d (mem_lookup _ id _ htok.2 he)).2.1
+      rw [← ht]; exact this
+
+/-! ## The origin checks -/
+
+/-- **Origin / Referer checks are sound.** For any configuration the constructor accepted, whenever
+    the handler's origin gate lets an unsafe request through, the specification's origin clause holds:
+    an Origin that is present (or, on https without Origin, a Referer) parsed, and its scheme and host
+    are the request's own or are admitted by one of the configured strings read as `scheme://host` or
+    `scheme://*.domain`. The path, query and fragment of the header play no role (they are not part
+    of `UrlInfo`). -/
+theorem origin_gate (raw : List Bytes) (cfg : Cfg)
+    (hbuild : buildLoop raw [] [] = some (cfg.origins, cfg.subs)) (q : Req)
+    (hwo : q.ourl.wf) (hwr : q.rurl.wf) (hgate : originGate cfg q = true) :
+    originClause (specOf cfg raw) q = true :=
+  gate_sound raw cfg hbuild q hwo hwr hgate
+
+/-- **Wildcard entries match on a dot boundary only**: `scheme://*.domain` admits exactly the origins
+    with that scheme whose host ends in `.domain`. -/
+theorem wildcard_admits_iff (s d scheme host : Bytes) :
+    (TrustEntry.wild s d).admits scheme host = true ↔ scheme = s ∧ ∃ pre, host = pre ++ (46 :: d) := by
+  unfold TrustEntry.admits hasSuffix
+  simp only [Bool.and_eq_true, decide_eq_true_eq, b]
+  constructor
+  · rintro ⟨h1, h2⟩
+    rw [List.isSuffixOf_iff_suffix] at h2
+    obtain ⟨pre, hp⟩ := h2
+    exact ⟨h1, pre, hp.symm⟩
+  · rintro ⟨h1, pre, hp⟩
+    refine ⟨h1, ?_⟩
+    rw [List.isSuffixOf_iff_suffix]
+    exact ⟨pre, hp.symm⟩
+
+/-- the constructor-level statement behind `origin_gate`: everything the handler trusts, the
+    configured strings admit -/
+theorem trusted_only_if_configured (raw : List Bytes) (cfg : Cfg)
+    (hbuild : buildLoop raw [] [] = some (cfg.origins, cfg.subs)) (scheme host : Bytes)
+    (hc : 58 ∉ scheme) (ht : trusted cfg (scheme ++ b "://" ++ host) = true) :
+    (raw.filterMap specEntry).any (·.admits scheme host) = true :=
+  trusted_sound raw cfg hbuild scheme host hc ht
+
+end C16
+
+/-! ## Non-vacuity: the hypotheses are met by concrete generators, configurations and histories, and
+    the clauses bite -/
+
+namespace C16
+open B
+
+/-- example generators: keys `t0, t1, …`, session ids `s0, s1, …` -/
+def genT (n : Nat) : Bytes := [116, 48 + n]
+def sgenT (n : Nat) : Bytes := [115, 48 + n]
+
+def rawT : List Bytes := [b "https://*.example.com", b " http://Partner.io/ "]
+
+def cfgT (be : Backend) (single : Bool) : Cfg :=
+  { backend := be, ext := .header, single := single, idle := 10,
+    origins := [b "http://partner.io"], subs := [{ pre := b "https://", suf := b ".example.com" }] }
+
+/-- the constructor accepts the example configuration and stores exactly these tables -/
+example (be : Backend) (single : Bool) :
+    buildLoop rawT [] [] = some ((cfgT be single).origins, (cfgT be single).subs) := by
+  show buildLoop rawT [] [] = some ([b "http://partner.io"], [{ pre := b "https://", suf := b ".example.com" }])
+  decide
+
+example (be : Backend) (single : Bool) : GenOK (cfgT be single) genT sgenT :=
+  ⟨fun n => by simp [genT], fun _ n m h => by simp [genT] at h; exact h, fun n => by simp [sgenT]⟩
+
+def noUrl : UrlInfo := { ok := true, scheme := [], host := [] }
+def urlOf (scheme host : String) : UrlInfo := { ok := true, scheme := b scheme, host := b host }
+
+def get (ck sc : Bytes) : Req :=
+  { method := b "GET", ck := ck, sc := sc, hdr := [], qry := [], form := [], param := [], custom := [],
+    origin := [], ourl := noUrl, referer := [], rurl := noUrl, host := b "api.site.io", https := false,
+    del := false, failGet := false, failSet := false, failDel := false }
+def post (ck sc hdr : Bytes) : Req := { get ck sc with method := b "POST", hdr := hdr }
+def postFrom (ck hdr : Bytes) (origin scheme host : String) : Req :=
+  { post ck [] hdr with origin := b origin, ourl := urlOf scheme host }
+
+def passes (cfg : Cfg) (ops : List Op) : List (Option Bool) :=
+  (run cfg genT sgenT {} ops).2.map (·.map (·.pass))
+
+example : OpsWf [.req (get [] []), .req (postFrom (genT 0) (genT 0) "https://a.example.com" "https" "a.example.com")] := by
+  intro q hq
+  simp only [List.mem_cons, Op.req.injEq, List.mem_nil_iff, or_false] at hq
+  rcases hq with rfl | rfl <;> exact ⟨by unfold UrlInfo.wf; decide, by unfold UrlInfo.wf; decide⟩
+
+/-- issue → use → replay of a single-use token: the hypothesis "an unsafe request reaches the handler"
+    of `unsafe_pass_requires_live_token` is met by the second request and refuted for the third -/
+example : passes (cfgT .storage true)
+    [.req (get [] []), .req (post (genT 0) [] (genT 0)), .req (post (genT 0) [] (genT 0))]
+    = [some true, some true, some false] := by decide
+
+/-- multi-use token: extended on use; refused once the idle period has passed; forged and
+    cookie/header mismatching tokens refused -/
+example : passes (cfgT .storage false)
+    [.req (get [] []), .adv 9, .req (post (genT 0) [] (genT 0)), .adv 9, .req (post (genT 0) [] (genT 0)),
+     .adv 10, .req (post (genT 0) [] (genT 0)), .req (post (b "zz") [] (b "zz")),
+     .req (get [] []), .req (post (genT 1) [] (genT 0))]
+    = [some true, none, some true, none, some true, none, some false, some false, some true, some false] := by
+  decide
+
+/-- origins: trusted subdomain and exact entry pass, look-alike host / wrong scheme / foreign host do
+    not, whatever the token -/
+example : passes (cfgT .storage false)
+    [.req (get [] []),
+     .req (postFrom (genT 0) (genT 0) "https://a.example.com" "https" "a.example.com"),
+     .req (postFrom (genT 0) (genT 0) "http://partner.io" "http" "partner.io"),
+     .req (postFrom (genT 0) (genT 0) "https://evilexample.com" "https" "evilexample.com"),
+     .req (postFrom (genT 0) (genT 0) "http://a.example.com" "http" "a.example.com"),
+     .req (postFrom (genT 0) (genT 0) "https://evil.com/x.example.com" "https" "evil.com")]
+    = [some true, some true, some true, some false, some false, some false] := by decide
+
+/-- a failing store: the hypothesis of `store_failure_rejects` is met (`early`) and the request is
+    turned away; the same request without the fault passes -/
+example : ((run (cfgT .storage false) genT sgenT {}
+      [.req (get [] []), .req { post (genT 0) [] (genT 0) with failSet := true },
+       .req { post (genT 0) [] (genT 0) with failGet := true }, .req (post (genT 0) [] (genT 0))]).2.map
+    (·.map fun r => (r.pass, r.early))) =
+    [some (true, false), some (false, true), some (false, true), some (true, false)] := by decide
+
+/-- two clients behind the session middleware: each one's token works with its own session only -/
+example : passes (cfgT .sessMw false)
+    [.req (get [] []), .req (get [] []),
+     .req (post (genT 0) (sgenT 0) (genT 0)), .req (post (genT 1) (sgenT 1) (genT 1)),
+     .req (post (genT 0) (sgenT 1) (genT 0)), .req (post (genT 1) (sgenT 0) (genT 1))]
+    = [some true, some true, some true, some true, some false, some false] := by decide
+
+/-- … and without it; `DeleteToken` (a safe request with `del`) kills the token -/
+example : passes (cfgT .sessStore false)
+    [.req (get [] []), .req (post (genT 0) (sgenT 0) (genT 0)), .req (post (genT 0) [] (genT 0)),
+     .req { get (genT 0) (sgenT 0) with del := true }, .req (post (genT 0) (sgenT 0) (genT 0))]
+    = [some true, some true, some false, some true, some false] := by decide
+
+/-- the oracle is not vacuous: it accepts the model's observations of a history with a forged token and
+    flags the same observations once the forged request is reported as having reached the handler -/
+example :
+    let ops := [Op.req (get [] []), Op.req (post (b "zz") [] (b "zz"))]
+    let obs := runObs (cfgT .storage false) genT sgenT {} ops
+    let forged := obs.map fun o => o.map fun o => if o.gens = [] then { o with pass := true } else o
+    (specRun (specOf (cfgT .storage false) rawT) specInit ops obs).isNone = true ∧
+    (specRun (specOf (cfgT .storage false) rawT) specInit ops forged).isSome = true := by decide
 
 end C16
